@@ -7,6 +7,7 @@ CONSTANTS
   SineWrap = "size"
   SinTab <- Sin8
   Incs = {0, 1, 5, 32, 255, 256, 257}
+  Emit = FALSE
 CONSTRAINT Bound
 INVARIANTS TypeOK Inv_C10_range Inv_C10_sqr Inv_C10_tri Inv_C11_drift
 PROPERTIES Prop_C11_tick
